@@ -53,7 +53,8 @@ class TabProblem(Problem):
                     v = spec["nxt"][s][a][e]
                     nxt_vec[s, a, e] = self._S[v] if isinstance(v, int) else np.array(v, dtype=np.int32)
         self._nxt_vec = jnp.array(nxt_vec)
-        self._rew = jnp.array(np.array(spec["rew"], dtype=np.float64))
+        # dtype of the reward that `transition` returns (an integer- or float32-typed reward is a legitimate Problem)
+        self._rew = jnp.array(np.array(spec["rew"], dtype=np.float64).astype(spec.get("rew_dtype", "float64")))
         self._prob = jnp.array(np.array(spec["prob"], dtype=np.float64))
         self._init = None if spec.get("init") is None else jnp.array(np.array(spec["init"], dtype=np.float64))
         self._initpol = None if spec.get("initpol") is None else jnp.array(self._A[np.array(spec["initpol"])])
